@@ -155,6 +155,17 @@ def run(tier: str, seed: int) -> int:
                                        {"got": got[fld], "spec": NP[sp[fld]]})
                 if not got["finite"] or not got["shape_ok"]:
                     run_.violation({"kind": "finite", "session": sess, "cls": rec["name"], "order": rec["order"], "mode": req}, got)
+            # no intermediate of the traced step leaves the session's precision (MC_Dtype.RangeOK, observed on every equation of the jaxpr)
+            inter = rec.get("intermediate_dtypes")
+            if inter is not None:
+                forbidden = {"float32", "complex64", "float16", "bfloat16"} if x64 else {"float64", "complex128"}
+                if forbidden & set(inter):
+                    run_.violation({"kind": "intermediate-dtype", "session": sess, "cls": rec["name"], "order": rec["order"]}, {"dtypes": inter})
+            if "semigroup_rel" in rec:
+                run_.evaluations += 1
+                if not rec["semigroup_rel"] <= 2000 * o["eps"]:
+                    run_.violation({"kind": "precision-faithfulness", "session": sess, "cls": rec["name"], "order": rec["order"],
+                                    "what": "two half steps != one step at the session's precision"}, {"rel": rec["semigroup_rel"], "bound": 2000 * o["eps"]})
             z = rec["zero"]
             term = TERM_OF.get(rec["name"])
             unforced = rec["name"] in registry.LINEAR or (term is not None and all(as_map(zero_table[term]).values()))
